@@ -171,7 +171,8 @@ CHECKS.update({
         technique="Lean 4 proof from characters to meaning over a hand-written model of _quote, packaging's marker parser and _build_markers + differential correspondence of each of the three with the real code",
         design_ref="0.2, 6/C07"),
     "C10": dict(
-        text="Lean: C10.call_ok / history_transparent / probe_independent - in a model where every atom carries the cached "
+        text="Lean: C10.call_ok / history_transparent / probe_independent (and callN_ok / history_transparent_tuple for caches keyed by a "
+             "TUPLE of markers, as _merge_single_markers / intersection / union are) - in a model where every atom carries the cached "
              "specifier the code would compute (WF), any history of prior calls leaves later results unchanged; "
              "not_transparent_without_wf shows the hypothesis is what the caches must guarantee. The implementation is checked "
              "against that: each expression is evaluated cold (fresh subprocess), warm (after unrelated histories sharing "
@@ -197,8 +198,10 @@ CHECKS.update({
     "C12": dict(
         text="Lean: C12.only_mentions / only_implied / only_same / exclude_mentions / exclude_implied / exclude_same_partial for "
              "every fuel and marker over good atoms (the variable-tracking single-layer invariant singleSound_names carried "
-             "through the engine induction); exclude_same needs `NoVanish` (no conjunct re-normalises to Empty), which holds of "
-             "markers in normal form - exclude_same_needs_noVanish is the counterexample on a constructor-built marker, replayed "
+             "through the engine induction); exclude_same needs `NoVanish` (no conjunct re-normalises to Empty) in general; it is PROVED "
+             "(noVanish_dnf, noVanish_cnf) on disjunctive shapes (what parse_marker and & return) and on conjunctions of single "
+             "markers and non-empty disjunctions of single markers (the factored form | may choose), so there the clause holds "
+             "outright at every fuel: exclude_same_dnf / exclude_same_cnf - exclude_same_needs_noVanish is the counterexample on a constructor-built marker, replayed "
              "on the implementation. Differential: only()/exclude()/without_extras() on random markers x variable subsets "
              "(and constructor-built, not-in-normal-form trees) compared structurally with the model; mentions/implication/"
              "identity judged on the real results.",
@@ -219,18 +222,24 @@ CHECKS.update({
              "canonical forms over the cut extension and commutation of the operators with order embeddings; also as equality of "
              "admitted sets for arbitrary objects (spec_*_mem). Markers - commutativity, associativity, idempotence, absorption, "
              "distributivity up to equivalence for every fuel (corollaries of C02). Every law is also evaluated with the real == / "
-             "evaluate() on triples from the order-type grid, random reachable specifiers and marker pools, and the results are "
+             "evaluate() on ALL ordered pairs of canonical objects over 3 points (two-operand laws, one-operand laws on each result, "
+             "associativity with fixed thirds), random reachable triples and marker pools, and the results are "
              "compared structurally with the model.",
         technique="Lean 4 proof (laws as object equalities / up to meaning) + law evaluation on the implementation over exhaustive/random triples",
         design_ref="0.2, 6/C14"),
     "C15": dict(
         text="PARTIAL proof. Lean: flatten_nodup / mkMulti_nodup / mkUnion_nodup (constructors never keep equal children), "
              "multiOf_exit / unionOfList_exit (of() returns Empty/Any, a member of its final list, or the constructor on a final "
-             "list of >= 2 entries without the absorbing element), and_neutral / or_neutral. The rest of the normal-form "
+             "list of >= 2 entries without the absorbing element), and_neutral / or_neutral; the FULL normal form for flat operands at "
+             "every fuel, whether or not the loops converged: multiOf_flat / unionOfList_flat (single markers), multiOf_son / "
+             "unionOfList_sox (+ universal marker), multiOf_atomic / unionOfList_atomic (ANY list of empty / universal / single "
+             "markers), and through the public operations and_flat / or_flat, exclude_flat_* / exclude_atomic_*, only_flat* / "
+             "only_atomic_*, build_flat_conj / build_flat_disj; unionOfList_not_empty / multiOf_not_any (the loops never delete). "
+             "For mixed operands (disjunctions of conjunctions and deeper) the rest of the normal-form "
              "invariant passes through fuel-bounded fixpoint loops for which we have no termination measure, so it is decided "
              "by the normal-form oracle on every implementation result (parse, &, |, only, exclude, Empty/Any operands, "
              "complement patterns, constructor-built trees) and their structural correspondence with the model.",
-        technique="Lean 4 partial proof (dedup + exit shapes) + normal-form oracle and structural correspondence on every result",
+        technique="Lean 4 proof for flat operands (every fuel) + partial proof (dedup, exit shapes) beyond + normal-form oracle and structural correspondence on every result",
         design_ref="6/C15"),
 })
 
